@@ -1796,6 +1796,12 @@ func (n *node) spawn(factory gen.ProcessFactory, options gen.ProcessOptionsExtra
 func (n *node) unregisterProcess(p *process, reason error) {
 	lib.VerifPoint("unreg.delete", p)
 	n.processes.Delete(p.pid)
+	if p.registered.Load() {
+		// release the registered name before anybody is told about the termination:
+		// a supervisor restarts its child with the same registered name as soon
+		// as it gets the exit message
+		n.names.CompareAndDelete(p.name, p)
+	}
 	n.RouteTerminatePID(p.pid, reason)
 	// drop the links/monitors this process had requested
 	linkTargets, monitorTargets := n.targetManager.CleanupConsumer(p.pid)
@@ -1818,7 +1824,6 @@ func (n *node) unregisterProcess(p *process, reason error) {
 	n.log.Trace("...unregisterProcess %s", p.pid)
 
 	if p.registered.Load() {
-		n.names.Delete(p.name)
 		pname := gen.ProcessID{Name: p.name, Node: n.name}
 		n.RouteTerminateProcessID(pname, reason)
 	}
